@@ -83,6 +83,10 @@ func (s *Server) HandlePutService(w http.ResponseWriter, r *http.Request) {
 
 	service.Metadata = *metadata
 
+	// remember the entity ID this service was registered under before, so that it can be unregistered
+	previous := Service{}
+	previousErr := s.Store.Get(fmt.Sprintf("/services/%s", r.PathValue("id")), &previous)
+
 	err = s.Store.Put(fmt.Sprintf("/services/%s", r.PathValue("id")), &service)
 	if err != nil {
 		s.logger.Printf("ERROR: %s", err)
@@ -91,6 +95,9 @@ func (s *Server) HandlePutService(w http.ResponseWriter, r *http.Request) {
 	}
 
 	s.idpConfigMu.Lock()
+	if previousErr == nil && previous.Metadata.EntityID != service.Metadata.EntityID {
+		delete(s.serviceProviders, previous.Metadata.EntityID)
+	}
 	s.serviceProviders[service.Metadata.EntityID] = &service.Metadata
 	s.idpConfigMu.Unlock()
 
